@@ -497,6 +497,7 @@ type Decl struct {
 	HasDef   bool
 	Def      Val
 	Schema   *Schema
+	Q        bool // the operation also declares a required integer query parameter "q"
 }
 
 func (d Decl) JSON() M {
@@ -504,13 +505,13 @@ func (d Decl) JSON() M {
 	if d.HasDef {
 		def = d.Def
 	}
-	return M{"name": d.Name, "required": d.Required, "hasDef": d.HasDef, "def": def.JSON(), "schema": d.Schema.JSON()}
+	return M{"name": d.Name, "required": d.Required, "hasDef": d.HasDef, "def": def.JSON(), "schema": d.Schema.JSON(), "q": d.Q}
 }
 
 func declFrom(x any) Decl {
 	m := drv.Map(x)
 	return Decl{Name: drv.Str(m["name"]), Required: drv.Bool(m["required"]), HasDef: drv.Bool(m["hasDef"]), Def: valFrom(m["def"]),
-		Schema: schemaFrom(m["schema"])}
+		Schema: schemaFrom(m["schema"]), Q: drv.Bool(m["q"])}
 }
 
 type Req struct {
@@ -522,18 +523,19 @@ type Req struct {
 	Raw   string // the exact bytes for syn ws / bad / trunc
 	Wire  bool   // send the bytes over a TCP connection to a real net/http server
 	CT    string // Content-Type header ("" = application/json)
+	Q     string // value sent for the query parameter q: "" (not sent) | ok | bad
 	Tags  []string
 }
 
 func (r Req) JSON() M {
 	return M{"tr": r.Tr, "syn": r.Syn, "v": r.V.JSON(), "trail": r.Trail, "style": r.Style, "raw": trace.B(r.Raw), "wire": r.Wire,
-		"ct": r.CT, "tags": trace.S(r.Tags)}
+		"ct": r.CT, "q": r.Q, "tags": trace.S(r.Tags)}
 }
 
 func reqFrom(x any) Req {
 	m := drv.Map(x)
 	r := Req{Tr: drv.Str(m["tr"]), Syn: drv.Str(m["syn"]), V: valFrom(m["v"]), Trail: drv.Str(m["trail"]), Style: drv.Str(m["style"]),
-		Raw: trace.Str(m["raw"]), Wire: drv.Bool(m["wire"]), CT: drv.Str(m["ct"])}
+		Raw: trace.Str(m["raw"]), Wire: drv.Bool(m["wire"]), CT: drv.Str(m["ct"]), Q: drv.Str(m["q"])}
 	return r
 }
 
@@ -585,10 +587,14 @@ func buildAPI(d Decl) (*apiInst, error) {
 	if d.HasDef {
 		param["default"] = json.RawMessage(d.Def.Text("compact"))
 	}
+	params := []any{param}
+	if d.Q {
+		params = append(params, map[string]any{"name": "q", "in": "query", "type": "integer", "required": true})
+	}
 	op := map[string]any{
 		"operationId": "op",
 		"consumes":    []string{"application/json"},
-		"parameters":  []any{param},
+		"parameters":  params,
 		"responses":   map[string]any{"200": map[string]any{"description": "ok", "schema": map[string]any{"type": "string"}}},
 	}
 	doc := map[string]any{
@@ -647,18 +653,28 @@ func contentType(rq Req) string {
 	return "application/json"
 }
 
+func target(rq Req) string {
+	switch rq.Q {
+	case "ok":
+		return "/p?q=5"
+	case "bad":
+		return "/p?q=x"
+	}
+	return "/p"
+}
+
 func buildRequest(rq Req) *http.Request {
 	var r *http.Request
 	switch rq.Tr {
 	case "none":
-		r = httptest.NewRequest(http.MethodPost, "/p", nil)
+		r = httptest.NewRequest(http.MethodPost, target(rq), nil)
 	case "cl0":
-		r = httptest.NewRequest(http.MethodPost, "/p", nil)
+		r = httptest.NewRequest(http.MethodPost, target(rq), nil)
 		r.Header.Set("Content-Length", "0")
 	case "len":
-		r = httptest.NewRequest(http.MethodPost, "/p", strings.NewReader(rq.body()))
+		r = httptest.NewRequest(http.MethodPost, target(rq), strings.NewReader(rq.body()))
 	case "chunked":
-		r = httptest.NewRequest(http.MethodPost, "/p", unknownLength{strings.NewReader(rq.body())})
+		r = httptest.NewRequest(http.MethodPost, target(rq), unknownLength{strings.NewReader(rq.body())})
 	default:
 		panic("g02: unknown transport " + rq.Tr)
 	}
@@ -685,7 +701,7 @@ func wireRoundTrip(h http.Handler, rq Req) (status int, body []byte, err error) 
 	}
 	defer conn.Close()
 	var b strings.Builder
-	b.WriteString("POST /p HTTP/1.1\r\nHost: g02.test\r\nContent-Type: " + contentType(rq) + "\r\nConnection: close\r\n")
+	b.WriteString("POST " + target(rq) + " HTTP/1.1\r\nHost: g02.test\r\nContent-Type: " + contentType(rq) + "\r\nConnection: close\r\n")
 	payload := rq.body()
 	switch rq.Tr {
 	case "none":
@@ -873,6 +889,20 @@ func serve(a *apiInst, d Decl, rq Req) (ev M) {
 	return ev
 }
 
+func count(c *drv.Ctx, ev M) {
+	k := "other"
+	switch {
+	case drv.Bool(ev["panic"]):
+		k = "panics"
+	case drv.Bool(ev["ran"]):
+		k = "handler_ran"
+	case drv.Int(ev["status"]) == 422:
+		k = "refused_422"
+	}
+	n, _ := c.Extra[k].(int)
+	c.Extra[k] = n + 1
+}
+
 func execute(c *drv.Ctx, desc M) bool {
 	if drv.Str(desc["kind"]) != "bind" {
 		panic("g02: unknown case kind")
@@ -899,6 +929,7 @@ func execute(c *drv.Ctx, desc M) bool {
 		ev := serve(a, d, rq)
 		ev["i"] = i + 1
 		c.W.Event("bind", ev)
+		count(c, ev)
 		if drv.Bool(ev["set"]) || len(ev["errs"].([]M)) > 0 {
 			nontrivial = true
 		}
